@@ -1,4 +1,5 @@
 import HumphreyModel.Driver.Util
+import HumphreyModel.Driver.C02
 import HumphreyModel.Driver.C05
 
 /-!
@@ -10,7 +11,7 @@ One `dispatch` per property lives in `HumphreyModel/Driver/Cxx.lean`.
 open Humphrey Humphrey.Driver
 
 def dispatchers : List (String → List String → String → Option Verdict) :=
-  [ C05.dispatch ]
+  [ C02.dispatch, C05.dispatch ]
 
 def dispatch (fn : String) (args : List String) (impl : String) : Verdict :=
   match dispatchers.findSome? (fun d => d fn args impl) with
